@@ -943,6 +943,74 @@ func (r *EngineRunner) Exec(f []string) (res string) {
 			return "err " + firstErr + r.takeEvents(false)
 		}
 		return "ok" + r.takeEvents(false)
+	case "bputfail": // E bputfail <key> <val>: a Batch.Put during which the operating system refuses the first write to a data file
+		// (the write of an overflow flush; standard I/O only - otherwise, and when the call writes nothing, an ordinary Put).
+		// The call reports the error; what was staged before stays staged and readable through the batch, and Commit applies it.
+		{
+			k, _ := ParseTok(f[2])
+			v, _ := ParseTok(f[3])
+			h1, h2 := fio.VerifEvent, kv.VerifFsEvent
+			victim, saved := -1, -1
+			var ro *os.File
+			if r.opts.FileIOType == fio.StandardFIO {
+				fio.VerifEvent = func(kind, path string, data []byte, n int64) {
+					if kind != "write" || victim >= 0 || !strings.HasSuffix(path, string(datafile.DataFileSuffix)) {
+						// everything but the refused write happens and is seen by the oracles (the Sync and the new file of a rotation)
+						if h1 != nil {
+							h1(kind, path, data, n)
+						}
+						return
+					}
+					ents, err := os.ReadDir("/proc/self/fd")
+					if err != nil {
+						return
+					}
+					for _, e := range ents {
+						if t, err := os.Readlink("/proc/self/fd/" + e.Name()); err == nil && (t == path || t == filepath.Clean(path) || t == evalPath(path)) {
+							fd := atoi(e.Name())
+							s, err := syscall.Dup(fd)
+							if err != nil {
+								return
+							}
+							nul, err := os.Open(os.DevNull)
+							if err != nil {
+								_ = syscall.Close(s)
+								return
+							}
+							if err := syscall.Dup3(int(nul.Fd()), fd, 0); err != nil {
+								_ = nul.Close()
+								_ = syscall.Close(s)
+								return
+							}
+							victim, saved, ro = fd, s, nul
+							return
+						}
+					}
+				}
+			}
+			err := r.batch.Put(r.hk(k), r.hv(v))
+			fio.VerifEvent, kv.VerifFsEvent = h1, h2
+			if victim >= 0 {
+				_ = syscall.Dup3(saved, victim, 0)
+				_ = syscall.Close(saved)
+				_ = ro.Close()
+			}
+			r.scribble()
+			r.events = nil
+			if victim >= 0 {
+				if err == nil {
+					r.fail("C05", "a Batch.Put whose overflow flush was refused by the operating system reported success")
+					r.ref.bput(r, k, v, nil)
+					return "ok"
+				}
+				return "err io"
+			}
+			r.ref.bput(r, k, v, err)
+			if err != nil {
+				return "err " + EngErr(err)
+			}
+			return "ok"
+		}
 	case "bgetrace": // E bgetrace <key> <n> <len>: one goroutine Puts the key n times through the open batch, the values alternating
 		// between <len> bytes 'A' and <len> bytes 'B'; a second goroutine reads the key through the batch all the while.  Every
 		// value read is one of the two, whole (or what the key held before).  Sequentially: the n Puts in order.
@@ -1947,4 +2015,11 @@ func (r *EngineRunner) withRefusedWritesIn(_ string, target string, f func()) bo
 	_ = syscall.Close(saved)
 	_ = ro.Close()
 	return true
+}
+
+func evalPath(p string) string {
+	if q, err := filepath.EvalSymlinks(p); err == nil {
+		return q
+	}
+	return p
 }
